@@ -654,7 +654,12 @@ class ModelGen:
     KW_LOCATION_NAMES = ["select", "for", "while", "do", "if", "else", "default", "return", "typedef", "struct", "meta",
                          "progress", "gantt", "assert", "IO", "xor", "string", "import"]
 
-    def model(self, priorities=None, branchpoints=True, params=True, partial=True, dynamic=False, kwnames=False):
+    # names the library itself treats specially somewhere (xmlwriter.cpp: "Err" gets a colour, "lpmin" a nail angle)
+    SPECIAL_LOCATION_NAMES = ["Err", "lpmin", "ERR", "err", "Error"]
+
+    def model(self, priorities=None, branchpoints=True, params=True, partial=True, dynamic=False, kwnames=False, rich_edges=False):
+        """rich_edges: probability weights also on edges that leave locations, edges between branchpoints (including a
+        branchpoint's self loop), locations with the names the XML writer treats specially."""
         r = self.rng
         m = {"gdecl": [], "templates": [], "insts": [], "system": [], "queries": []}
         # ---- globals
@@ -745,6 +750,10 @@ class ModelGen:
             nL = r.randint(1, self.maxL)
             for li in range(nL):
                 loc = {"id": self.fresh_id(), "name": ("L%d" % li) if r.random() < 0.75 else None, "inv": None, "rate": None, "flag": None}
+                if rich_edges and r.random() < 0.06:
+                    sn = r.choice(self.SPECIAL_LOCATION_NAMES)
+                    if sn not in [l["name"] for l in t["locations"]]:
+                        loc["name"] = sn
                 if kwnames and r.random() < 0.05:
                     kn = r.choice(self.KW_LOCATION_NAMES)
                     if kn not in [l["name"] for l in t["locations"]]:
@@ -793,6 +802,8 @@ class ModelGen:
                     e["assign"] = self.updates(wints, eints, bools, clocks)
                     if has_inc and r.random() < 0.15:
                         e["assign"].append(("call", "inc", []))
+                if rich_edges and r.random() < 0.15:
+                    e["prob"] = r.choice([self.lit(2, 9), ("bin", "PLUS", ("id", "N"), self.lit(1, 5)), self.lit(1, 1)])
                 t["edges"].append(e)
             # branchpoint edges: one edge into each branchpoint and two weighted edges out of it
             for b in t["branchpoints"]:
@@ -803,6 +814,13 @@ class ModelGen:
                     t["edges"].append({"src": b, "dst": r.choice(locids), "control": None, "select": [], "guard": None,
                                        "sync": None, "assign": self.updates(wints, ints, bools, clocks) if r.random() < 0.5 else [],
                                        "prob": self.lit(1, 9) if r.random() < 0.8 else None})
+            if rich_edges and t["branchpoints"] and r.random() < 0.5:
+                b0 = t["branchpoints"][0]
+                b1 = t["branchpoints"][-1]
+                for src, dst in ([(b0, b0)] if r.random() < 0.6 else []) + ([(b0, b1), (b1, b0)] if b1 != b0 and r.random() < 0.6 else []) + \
+                        ([(b0, b0)] if r.random() < 0.2 else []):
+                    t["edges"].append({"src": src, "dst": dst, "control": None, "select": [], "guard": None, "sync": None, "assign": [],
+                                       "prob": self.lit(1, 9) if r.random() < 0.7 else None})
             # parallel edges and self loops are produced by the random endpoints above; sort by source so that
             # the XTA renderer can chain them
             if r.random() < 0.5:
@@ -873,7 +891,8 @@ class ModelGen:
             if t["params"]:
                 t["params"] = []
                 # drop uses of parameters: regenerate would be simpler; instead start over
-                return self.model(priorities, branchpoints, params=False, partial=partial, dynamic=dynamic, kwnames=kwnames)
+                return self.model(priorities, branchpoints, params=False, partial=partial, dynamic=dynamic, kwnames=kwnames,
+                                  rich_edges=rich_edges)
             procs.append(t["name"])
         if r.random() < 0.3:
             qs = []
